@@ -233,11 +233,16 @@ func (s *Stream) Read(buffer []byte) (int, error) {
 	}
 	s.receiveBufferLock.Unlock()
 
-	// Send a window update corresponding to the amount that we read.
-	select {
-	case s.multiplexer.enqueueWindowIncrement <- windowIncrement{s.identifier, uint64(count)}:
-	case <-s.multiplexer.closed:
-		return count, ErrMultiplexerClosed
+	// Send a window update corresponding to the amount that we read. We only do
+	// this for non-zero read counts (a zero count can occur if the caller
+	// provides an empty buffer) because a zero-valued window increment is a
+	// protocol violation that would cause the remote to terminate.
+	if count > 0 {
+		select {
+		case s.multiplexer.enqueueWindowIncrement <- windowIncrement{s.identifier, uint64(count)}:
+		case <-s.multiplexer.closed:
+			return count, ErrMultiplexerClosed
+		}
 	}
 
 	// Success.
